@@ -30,9 +30,10 @@ PKG = "yv-c04"
 # name -> (Gen_Fnmatch cfg, Gen_FnmatchFind cfg)
 ENUM = {
     "quick": [("q_full", "full3"), ("q_wide", "wide2"), ("q_bracket", "full3"), ("q_quoted", "full3"), ("q_coll", "full3"),
-              ("q_class", "class3")],
+              ("q_class", "class3"), ("q_setops", "set3"), ("q_regex", "regex2")],
     "thorough": [("t_full", "full3"), ("t_bracket", "full3"), ("t_quoted", "full3"), ("t_coll", "full3"),
-                 ("t_class", "class3"), ("t_long", "full4"), ("t_wide", "wide3"), ("q_quoted", "full3"), ("q_coll", "full3")],
+                 ("t_class", "class3"), ("t_long", "full4"), ("t_wide", "wide3"), ("q_quoted", "full3"), ("q_coll", "full3"),
+                 ("t_setops", "set3"), ("t_regex", "regex2")],
 }
 SHELL = {"quick": "q_shell", "thorough": "t_shell"}
 RANDOM = {"quick": 40000, "thorough": 400000}
@@ -105,7 +106,7 @@ def _enum_one(wd, name, findcfg, rep, acc, lock, workers):
     out = os.path.join(wd, f"{name}.mismatch.ndjson")
     t0 = time.time()
     vlib.run_harness(PKG, ["enum", "--lines", lines, "--msets", mpath, "--tables", tables, "--out", out,
-                           "--threads", "8"], timeout=6000)
+                           "--threads", "6"], timeout=6000)
     stats = None
     sample = None
     mism = []
@@ -197,28 +198,29 @@ def _validate(trace, shards=8, timeout=3000):
     return rejects, judged, opened
 
 
-def _random(wd, tier, rep, acc):
+def _random(wd, tier, rep, acc, lock):
     trace = os.path.join(wd, "random.ndjson")
     n = RANDOM[tier]
     vlib.run_harness(PKG, ["random", "--n", str(n), "--out", trace])
-    rejects, judged, opened = _validate(trace)
-    for j in rejects:
-        rec = j["rec"]
-        if rec["pn"]:
-            kind = "panic"
-        else:
-            kind = "random"
-        key = {"check": "random", "kind": kind, "shape": shape(j["cs"], j["nt"]), "pattern": _record_text(rec)}
-        rep.violation(key, "record of the real yash_fnmatch not allowed by Fnmatch.tla: " + json.dumps(rec)[:600],
-                      {"records": [rec]})
-    with open(trace) as f:
-        for i, line in enumerate(f):
-            if i in (3, 1234):
-                acc["samples"].append({"random_record": json.loads(line)})
+    rejects, judged, opened = _validate(trace, shards=6)
+    with lock:
+        for j in rejects:
+            rec = j["rec"]
+            if rec["pn"]:
+                kind = "panic"
+            else:
+                kind = "random"
+            key = {"check": "random", "kind": kind, "shape": shape(j["cs"], j["nt"]), "pattern": _record_text(rec)}
+            rep.violation(key, "record of the real yash_fnmatch not allowed by Fnmatch.tla: " + json.dumps(rec)[:600],
+                          {"records": [rec]})
+        with open(trace) as f:
+            for i, line in enumerate(f):
+                if i in (3, 1234):
+                    acc["samples"].append({"random_record": json.loads(line)})
+        acc["random"] = judged
+        acc["random_open"] = opened
+        acc["random_rejected"] = len(rejects)
     os.remove(trace)
-    acc["random"] = judged
-    acc["random_open"] = opened
-    acc["random_rejected"] = len(rejects)
     vlib.log(f"[p4b] {judged} random records judged by Trace_Fnmatch ({opened} with a pattern POSIX leaves open, "
              f"{len(rejects)} rejected)")
 
@@ -226,7 +228,7 @@ def _random(wd, tier, rep, acc):
 # ---------------------------------------------------------------------------
 # P4c
 # ---------------------------------------------------------------------------
-def _shell(wd, tier, rep, acc, workers):
+def _shell(wd, tier, rep, acc, lock, workers):
     name = SHELL[tier]
     lines = os.path.join(wd, "shell.lines.ndjson")
     r = vlib.tlc("Gen_Fnmatch", f"Gen_Fnmatch_{name}.cfg", workers=workers, timeout=3000, json_out=lines)
@@ -238,7 +240,7 @@ def _shell(wd, tier, rep, acc, workers):
     body = [x for x in all_lines if not x.startswith('{"dom"')]
     if len(header) != 1 or len(body) != r.distinct:
         raise vlib.ToolError("shell generator output incomplete")
-    nproc = 8
+    nproc = 6
     parts = []
     for k in range(nproc):
         p = os.path.join(wd, f"shell.part{k}.ndjson")
@@ -274,17 +276,19 @@ def _shell(wd, tier, rep, acc, workers):
                 key = {"check": "shell", "kind": d["kind"], "shape": shape(d["cs"], src.get("nt")), "pattern": text,
                        "route": d["route"]}
                 row = [x for x in src["sh"] if x[0] == d["s"]]
-                rep.violation(key, "the shell disagrees with Fnmatch.tla (trim / case): " + json.dumps(d)[:700],
-                              {"shell": {"header": json.loads(header[0]), "line": dict(src, sh=row)}})
+                with lock:
+                    rep.violation(key, "the shell disagrees with Fnmatch.tla (trim / case): " + json.dumps(d)[:700],
+                                  {"shell": {"header": json.loads(header[0]), "line": dict(src, sh=row)}})
     for p in parts:
         os.remove(p)
         os.remove(p + ".out")
     os.remove(lines)
     if tot["patterns"] + tot["skipped_unspecified"] != r.distinct:
         raise vlib.ToolError("shell binding: not every pattern was run")
-    acc["states"] += r.distinct
-    acc["transitions"] += r.generated
-    acc["shell"] = tot
+    with lock:
+        acc["states"] += r.distinct
+        acc["transitions"] += r.generated
+        acc["shell"] = tot
     acc["samples"].append({"shell_case": {"pattern": pattern_text(json.loads(body[len(body) // 2])["c"],
                                                                  json.loads(body[len(body) // 2])["l"]),
                                           "rows": json.loads(body[len(body) // 2])["sh"][:3]}})
@@ -303,29 +307,38 @@ def run(tier):
            "samples": [], "features": {}}
     lock = threading.Lock()
 
-    # P1: the oracle itself
-    mc = vlib.tlc("MC_Fnmatch", MC[tier], workers=8, timeout=2400)
-    vlib.tlc_must_pass(mc, "oracle sanity theorems and calibration (MC_Fnmatch)")
-    vlib.log(f"[p1] MC_Fnmatch: {mc.distinct} patterns x theorems, calibration ASSUMEs hold, {mc.wall:.1f}s")
-    acc["states"] += mc.distinct
-    acc["transitions"] += mc.generated
+    # Independent stages, three in flight: P1 (the oracle itself), P4a (one job per generator
+    # configuration), P4b, P4c.
+    mcres = {}
 
-    # P4a: two generator configurations in flight at a time
+    def job_mc():
+        mc = vlib.tlc("MC_Fnmatch", MC[tier], workers=4, timeout=2400)
+        vlib.tlc_must_pass(mc, "oracle sanity theorems and calibration (MC_Fnmatch)")
+        vlib.log(f"[p1] MC_Fnmatch: {mc.distinct} patterns x theorems, calibration ASSUMEs hold, {mc.wall:.1f}s")
+        with lock:
+            acc["states"] += mc.distinct
+            acc["transitions"] += mc.generated
+        mcres["mc"] = mc
+
+    jobs = [job_mc, lambda: _shell(wd, tier, rep, acc, lock, workers=4)]
+    for item in ENUM[tier]:
+        jobs.append(lambda item=item: _enum_one(wd, item[0], item[1], rep, acc, lock, workers=5))
+    jobs.insert(3, lambda: _random(wd, tier, rep, acc, lock))
     errors = []
 
-    def job(item):
+    def guarded(j):
+        if errors:
+            return
         try:
-            _enum_one(wd, item[0], item[1], rep, acc, lock, workers=6)
+            j()
         except Exception as e:  # re-raised below (ToolError keeps exit code 2)
             errors.append(e)
 
-    with ThreadPoolExecutor(max_workers=2) as ex:
-        list(ex.map(job, ENUM[tier]))
+    with ThreadPoolExecutor(max_workers=3) as ex:
+        list(ex.map(guarded, jobs))
     if errors:
         raise errors[0]
-
-    _random(wd, tier, rep, acc)
-    _shell(wd, tier, rep, acc, workers=8)
+    mc = mcres["mc"]
 
     rc = rep.finish()
     shell = acc.get("shell", {})
